@@ -197,7 +197,7 @@ def _run_obligation(ob, units, astinfo, workdir, tier):
             if rc != 0: raise Undecided('goto-instrument failed:\n' + (out + err)[-3000:])
             cur = nxt
         flags = ['--bounds-check', '--pointer-check', '--pointer-primitive-check', '--div-by-zero-check', '--json-ui', '--no-built-in-assertions'] if False else \
-                ['--bounds-check', '--pointer-check', '--div-by-zero-check', '--no-malloc-may-fail', '--object-bits', '10', '--json-ui']
+                ['--bounds-check', '--pointer-check', '--div-by-zero-check', '--no-malloc-may-fail', '--object-bits', str(ob.get('object_bits', 10)), '--json-ui']
         flags += ob.get('cbmc_flags', [])
         unwind = ob.get('unwind_' + tier, ob.get('unwind'))
         if unwind:
